@@ -152,6 +152,35 @@ def ring(ctx, P):
                   'every Ok exit after the comparison section passes a rejecting branch that depends on the three session-key comparisons (PKESK, SKESK, explicit keys)',
                   ok and len(sites) >= 3 and bool(late_oks), function=b.path, guards=[site(b, g) for g in gs], count=len(sites),
                   witness=fmt_path(b, wit) if wit else None)
+        # ... and the session keys obtained through DIFFERENT mechanisms are compared with each other as well (a right password plus a
+        # wrong explicit session key is a conflict, not a silent choice): one comparison per pair of groups
+        SRC = {'pkesk': r'call:.*try_decrypt$', 'skesk': r'call:.*decrypt_session_key_with_password$', 'explicit': r'field:TheRing\.session_keys$'}
+        import callgraph
+        edges = {i: set(j for j, _ in b.succ(i)) for i in range(len(b.blocks)) if not b.blocks[i]['c']}
+        inloop = set()
+        for comp in callgraph.sccs(edges):
+            if len(comp) > 1 or comp[0] in edges.get(comp[0], ()):
+                inloop |= set(comp)
+        # within-group comparisons run inside the loops over a group; comparisons between group representatives are outside any loop.
+        # (`self` makes every operand also derive from the explicit keys, so a comparison is identified by its non-explicit groups:
+        #  {pkesk, skesk}, {pkesk} = pkesk vs explicit, {skesk} = skesk vs explicit.)
+        pairs = set()
+        for i, t in b.calls(r'PartialEq::(eq|ne)$'):
+            if 'PlainSessionKey' not in (t['f'].get('selfty') or '') or len(t['args']) < 2 or i in inloop:
+                continue
+            g = set()
+            for a_ in t['args'][:2]:
+                g |= set(k for k, rx in SRC.items() if has_origin(b.operand_origins(a_), rx))
+            ne = g - {'explicit'}
+            if ne == {'pkesk', 'skesk'}:
+                pairs.add(frozenset({'pkesk', 'skesk'}))
+            elif len(ne) == 1 and 'explicit' in g:
+                pairs.add(frozenset(ne | {'explicit'}))
+        want = {frozenset({'pkesk', 'skesk'}), frozenset({'pkesk', 'explicit'}), frozenset({'skesk', 'explicit'})}
+        gs2 = [g for g, _ in guard_switches(b, late_oks, [r'callty:.*PartialEq::(ne|eq)@.*PlainSessionKey'])]
+        ctx.check(P + ':ring:cross-group-consistency', 'R-dom', 'session keys obtained from PKESKs, from SKESKs and given explicitly are compared across the three groups (rejecting) before one is returned',
+                  want <= pairs and bool(gs2), function=b.path, table=sorted(sorted(x) for x in pairs),
+                  missing=None if want <= pairs else 'groups are only checked internally: pairs compared %s; a correct password plus a wrong explicit session key is silently resolved' % sorted(sorted(x) for x in pairs))
     b = ctx.body("composed::message::types::Message::<'a>::decrypt_the_ring")
     if b is not None:
         sinks = call_blocks(b, r'Edata.*::decrypt_with_options$')
